@@ -289,7 +289,7 @@ def run_grid(case):
     e2 = np.abs(v - v[:, ::-1]).max()
     scale = max(1.0, np.abs(v).max())
     met = {"flip_x": e1 / scale, "flip_y": e2 / scale}
-    if max(e1, e2) / scale > 1e-9 * TOLX:
+    if not (max(e1, e2) / scale <= 1e-9 * TOLX):
         return Outcome(failure("sphere_hologram_symmetry", "hologram of a centred sphere under axis-aligned polarization is not symmetric: "
                                "flip x %.3g, flip y %.3g" % (e1 / scale, e2 / scale), theory=case["theory"]), True, labels)
     # whole-pixel shift of detector and particle
@@ -300,7 +300,7 @@ def run_grid(case):
     v2 = H2.transpose("x", "y", "z").values[:, :, 0]
     e3 = np.abs(v2 - v).max() / scale
     met["pixel_shift"] = e3
-    if e3 > 1e-9 * TOLX:
+    if not (e3 <= 1e-9 * TOLX):
         return Outcome(failure("whole_pixel_shift", "hologram changes by %.3g when particle and grid shift by (%d,%d) pixels" % (e3, px, py),
                                theory=case["theory"]), True, labels)
     if not (np.array_equal(H2.x.values, d2.x.values) and np.array_equal(H2.y.values, d2.y.values)):
